@@ -145,21 +145,30 @@ def run_case(case, drv):
     rnd = random.Random(case["seed"])
     grid = VU.gen_grid(rnd, case["spec"])
     objs = {}
-    for form in case["order"]:
+    recipe = {"arc": grid, "path": FU.gen_routes(rnd, case["spec"], 3)}
+    for f in ("seqS", "seqN"):
+        # (None = the setter is never called: the object keeps its constructor default)
+        recipe[f] = (rnd.choice([None, 0, 1, 2]), rnd.choice([3, 4]))
+
+    def construct(form):
         if form == "arc":
             o = ArcBasedRoutingProblem(v)
-            o.add_time_points([VU.val(t) for t in grid])
+            o.add_time_points([VU.val(t) for t in recipe["arc"]])
         elif form == "path":
             o = PathBasedRoutingProblem(v)
-            for r in FU.gen_routes(rnd, case["spec"], 3):
+            for r in recipe["path"]:
                 try:
                     o.add_route(list(r))
                 except ValueError:
                     pass
         else:
             o = SequenceBasedRoutingProblem(v, strict=(form == "seqS"))
-            o.set_max_vehicles(rnd.choice([0, 1, 2]))
-            o.set_max_sequence_length(rnd.choice([3, 4]))
+            if recipe[form][0] is not None:
+                o.set_max_vehicles(recipe[form][0])
+            o.set_max_sequence_length(recipe[form][1])
+        return o
+    for form in case["order"]:
+        o = construct(form)
         objs[form] = o
         if vrptw_snapshot(v) != snap0:
             res.fail("source:graph-changed", f"constructing the {form} formulation changed the source graph")
@@ -168,6 +177,7 @@ def run_case(case, drv):
             res.fail("alias:source", f"{form} formulation shares objects with the source graph")
             return res
     prints = {f: fingerprint(o, f[:3])[0] for f, o in objs.items()}
+    initial = dict(prints)
     for form in case["order"]:
         o = objs[form]
         g0 = MU.graph_state(o.vrptw)
@@ -189,6 +199,17 @@ def run_case(case, drv):
     for a, b in itertools.combinations(objs, 2):
         if identities(objs[a].vrptw) & identities(objs[b].vrptw):
             res.fail("alias:formulations", f"{a} and {b} formulations share graph objects")
+            return res
+    # a formulation constructed NOW from the same source in the same way equals the one constructed before anything else ran
+    # (no state shared through class attributes / module globals / default arguments)
+    for form in case["order"]:
+        try:
+            fresh = fingerprint(construct(form), form[:3])[0]
+        except Exception as e:  # noqa
+            res.fail("leak:fresh-object-raises", f"constructing a second {form} formulation after the others ran raised {e!r}")
+            return res
+        if fresh != initial[form]:
+            res.fail("leak:fresh-object", f"a {form} formulation constructed after the others ran differs from the one constructed first from the same graph")
             return res
     res.nontrivial = changed_any
     return res
